@@ -1,6 +1,6 @@
 module verifharness
 
-go 1.21
+go 1.22.0
 
 replace (
 	free5gclib => /repo/src/free5gclib
@@ -12,7 +12,8 @@ require (
 	free5gclib v0.0.0-00010101000000-000000000000
 	github.com/ishidawataru/sctp v0.0.0-20210707070123-9a39160e9062
 	github.com/sirupsen/logrus v1.9.0
-	golang.org/x/sys v0.14.1-0.20231108175955-e4099bfacb8c
+	golang.org/x/sys v0.29.0
+	golang.org/x/tools v0.29.0
 	stgutg v0.0.0-00010101000000-000000000000
 	tglib v0.0.0-00010101000000-000000000000
 )
@@ -23,5 +24,11 @@ require (
 	github.com/calee0219/fatal v0.0.1 // indirect
 	github.com/dgrijalva/jwt-go v3.2.0+incompatible // indirect
 	github.com/wmnsk/milenage v1.2.1 // indirect
+	golang.org/x/mod v0.22.0 // indirect
+	golang.org/x/sync v0.10.0 // indirect
 	gopkg.in/yaml.v2 v2.4.0 // indirect
 )
+
+// go/ssa for `gen footprint` (C20). x/tools v0.29.0's own go.mod asks for x/sys v0.29.0; the harness must build
+// the repo's packages against the x/sys version the repo pins, so it is held back here.
+replace golang.org/x/sys => golang.org/x/sys v0.14.1-0.20231108175955-e4099bfacb8c
